@@ -1007,6 +1007,11 @@ class Interp:
                         c2 = self.store_back(tgt.value, nb, c2)
                         if base.origin is not None:
                             c2 = c2.hset(base.origin, DictV(nb.items))
+                    elif isinstance(base, ListV) and base.kind == "list" and isinstance(idx, Const) and isinstance(idx.v, int) \
+                            and -len(base.items) <= idx.v < len(base.items):
+                        items = list(base.items)
+                        items[idx.v] = val
+                        c2 = self.store_back(tgt.value, ListV(items, "list"), c2)
                     res.append(c2)
             return res
         if isinstance(tgt, ast.Starred):
@@ -1220,7 +1225,10 @@ class Interp:
         res = []
         for c, base in self.ev(node.value, cfg, out):
             for c1, idx in self.ev(node.slice, c, out):
-                res.append((c1, self.getitem(base, idx)))
+                v = self.getitem(base, idx)
+                if getattr(self.policy, "emit_getitem", False) and isinstance(v, App) and v.op == "getitem" and v.args[0] is base:
+                    c1 = c1.emit(("getitem", base, idx))
+                res.append((c1, v))
         return res
 
     def getitem(self, base, idx):
@@ -1927,6 +1935,11 @@ class Interp:
                 c = c.set(recv_name, newv)
             elif isinstance(node.func, ast.Attribute) and isinstance(node.func.value, ast.Subscript):
                 c = self.store_back(node.func.value, newv, c)
+            elif isinstance(node.func, ast.Attribute) and isinstance(node.func.value, ast.Call) and isinstance(node.func.value.func, ast.Attribute) \
+                    and node.func.value.func.attr in ("setdefault", "get") and node.func.value.args:
+                # d.setdefault(k, default).add(x) / d.get(k).add(x): the receiver is the element d[k]
+                inner = node.func.value
+                c = self.store_back(ast.Subscript(value=inner.func.value, slice=inner.args[0], ctx=ast.Load()), newv, c)
             elif recv_attr is not None:
                 sub = Out()
                 bases = self.ev(recv_attr.value, cfg, sub)
@@ -1943,6 +1956,16 @@ class Interp:
                 if base.kind == "set" and args[0] in base.items:
                     return [(cfg, NONE)]
                 return rebind(ListV(base.items + (args[0],), base.kind))
+            if meth in ("discard", "remove") and len(args) == 1 and (isinstance(args[0], Const) or args[0] in base.items) \
+                    and all(isinstance(x, Const) or x == args[0] for x in base.items):
+                if args[0] in base.items:
+                    items = list(base.items)
+                    items.remove(args[0])
+                    return rebind(ListV(items, base.kind))
+                if meth == "discard":
+                    return [(cfg, NONE)]
+            if meth == "clear" and not args:
+                return rebind(ListV((), base.kind))
             if meth == "extend" and len(args) == 1 and isinstance(args[0], ListV):
                 return rebind(ListV(base.items + args[0].items, base.kind))
             if meth == "pop" and not args and base.items:
